@@ -64,7 +64,9 @@ def cmp_oracle(a, b):
 
 def prefix_oracle(a, b):
     """a is b itself, or the root, or b = a + '/' + rest."""
-    return z3.Or(str_eq(a, b), a.n == 1, z3.And(a.n < b.n, str_starts_with(b, a), b.elem(a.n) == SL))
+    a, b = as_symstr(a), as_symstr(b)
+    return z3.Or(zbool(str_eq(a, b)), zint(a.n) == 1,
+                 z3.And(zint(a.n) < zint(b.n), zbool(str_starts_with(b, a)), zint(b.elem(a.n)) == SL))
 
 
 def show(model, s):
